@@ -27,6 +27,9 @@ pub enum ItemSpec {
     Init,
     /// Init naming a document that is not open here
     InitOther,
+    /// Init for our document whose message is not the honest whole-range fingerprint but an item part
+    /// carrying `n` fresh valid entries
+    InitItems { n: usize },
     /// Sync with an item part carrying `n` fresh valid entries (`have_local` as given)
     SyncItems { n: usize, have_local: bool },
     /// Sync carrying one forged entry
@@ -126,6 +129,8 @@ impl Property for C10 {
             ("unexpected-frames".into(), vec![
                 Op::Bob { items: vec![ItemSpec::SyncItems { n: 1, have_local: true }], truncated: false, reject: None, fail: None },
                 Op::Bob { items: vec![ItemSpec::Init, ItemSpec::Init], truncated: false, reject: None, fail: None },
+                Op::Bob { items: vec![ItemSpec::InitItems { n: 2 }], truncated: false, reject: Some(1), fail: None },
+                Op::Bob { items: vec![ItemSpec::InitItems { n: 1 }, ItemSpec::SyncItems { n: 1, have_local: true }], truncated: false, reject: None, fail: None },
                 Op::Bob { items: vec![ItemSpec::Abort { reason: 1 }], truncated: false, reject: None, fail: None },
                 Op::Bob { items: vec![], truncated: false, reject: None, fail: None },
                 Op::Bob { items: vec![], truncated: true, reject: None, fail: None },
@@ -153,7 +158,7 @@ impl Property for C10 {
             let mut items = vec![];
             for i in 0..n {
                 if bob && i == 0 && rng.chance(4, 5) {
-                    items.push(ItemSpec::Init);
+                    items.push(if rng.chance(1, 4) { ItemSpec::InitItems { n: rng.range(1, 3) } } else { ItemSpec::Init });
                 } else {
                     items.push(self.gen_item(rng, i == 0));
                 }
@@ -236,6 +241,16 @@ impl Property for C10 {
                                 let mm = MMsg::from_real(&m0);
                                 (encode_frame(Frame::Init { namespace, message: m0 })?, format!("init@{}@{}", hex(namespace.as_bytes()), msg_tok(&mm, tok)))
                             }
+                            ItemSpec::InitItems { n } => {
+                                let mut values = vec![];
+                                for _ in 0..*n {
+                                    fresh += 1;
+                                    let k = format!("fresh-{fresh}");
+                                    values.push((make_entry(ns, &self.keys.authors[fresh as usize % 3], k.as_bytes(), Some(fresh as usize % 3), 7), ContentStatus::Complete));
+                                }
+                                let mm = MMsg { parts: vec![MPart::RangeItem(MItem { range: MRange { x: anchor.clone(), y: anchor.clone() }, values, have_local: false })] };
+                                (encode_frame(Frame::Init { namespace: nsid, message: mm.to_real()? })?, format!("init@{}@{}", hex(nsid.as_bytes()), msg_tok(&mm, tok)))
+                            }
                             ItemSpec::SyncItems { n, have_local } => {
                                 let mut values = vec![];
                                 for _ in 0..*n {
@@ -290,7 +305,7 @@ impl Property for C10 {
                             (bytes, itok)
                         };
                         frame_values.push(match it {
-                            ItemSpec::SyncItems { n, .. } => *n,
+                            ItemSpec::SyncItems { n, .. } | ItemSpec::InitItems { n } => *n,
                             ItemSpec::SyncForged => 1,
                             _ => 0,
                         });
@@ -478,7 +493,7 @@ impl Property for C10 {
                     };
                     let d = crate::c08::dump_fp(&mut store, nsid)?;
                     lines.push(Line::model(format!("tquery {sid} {nshex} flat-ak * any - 0 1 0"), d.clone()));
-                    if reject.is_some() && items.first().map(|i| matches!(i, ItemSpec::Init | ItemSpec::InitOther)).unwrap_or(false) {
+                    if reject.is_some() && items.first().map(|i| matches!(i, ItemSpec::Init | ItemSpec::InitOther | ItemSpec::InitItems { .. })).unwrap_or(false) {
                         // specification: a declined request changes nothing
                         let before = entries_line(&{
                             let mut v: Vec<_> = vec![];
